@@ -12,7 +12,7 @@ def run(ctx):
     binp = ctx.go_build("c19")
     if not binp:
         return
-    ngen = 1000 if quick else 20000
+    ngen = 800 if quick else 20000
     nsearch = 2000 if quick else 30000
     ctx.rule = ("trees of 2..6 entries per directory, depth <= 3, names from a pool with dot files, spaces, '*s', upper/lower case, "
                 "non-ASCII; symlinks to sibling files/directories and dangling; words of 1..3 components over * ? ?? a* *b ?x .* "
